@@ -13,6 +13,8 @@ CLAIMS = {
          "errgroup.Wait's first-error-in-completion-order and Go channel semantics are recorded assumptions; 'eventually 200' is observed by polling (<=2 s), never a theorem.", "6/C16"),
  "C09": ("Theorems by induction over ALL accepted event traces for ALL limits: bound, no leak (inflight = entered-not-left; refill of cap fresh renders accepted after quiescence), every exit releases, cancel takes no slot, disabled never waits, progress. Correspondence: generated histories (start, release ok/not_found/func_error/panic, cancel, probe) on a real Engine with gate() template functions; observed traces judged by the Coq acceptor and an independent oracle.",
          "Go channel/select/defer semantics and scheduling are assumed; timing bounds (500 ms cancel, 200 ms settle) are observed only.", "6/C09"),
+ "C19": ("Theorems for ALL request byte strings, trees, whitelists and Origin values: clean is rooted without '..', the resolved path is inside frontend/dist, a directory is never listed or answered with content, a File answer carries exactly the bytes of the regular file at the resolved path, CORS header = whitelist-membership spec (and refutation of the unrepaired '!'-joined test). Correspondence: real handler obtained through Module.Configure + DefaultMux under httptest over generated trees with canary files outside dist; raw request targets; path.Clean / URL decoding / mux decision compared per request.",
+         "Modelled (compared per case, not verified): path.Clean, net/url decoding, ServeMux cleanPath/redirect, http.Dir.Open, serveFile. Outside the model: symlinks, permissions, NAME_MAX, Range/conditional requests.", "6/C19"),
 }
 TECH = "Coq proof over hand-written model + differential correspondence check judged in Coq"
 props = [json.loads(l)["id"] for l in open(os.path.join(V, "properties.jsonl"))]
